@@ -907,20 +907,25 @@ def edge_atoms(fn, bb):
     e = op_expr(fn, t["d"])
     isbool = t["dty"] == "bool"
     vals = t["v"]
+    by_tgt = {}
     for v, tgt in vals:
-        if isbool:
-            a = bool_atom(e, bool(v))
-        else:
-            a = (e, ("eq", v))
-        out.setdefault(tgt, []).append(a)
+        by_tgt.setdefault(tgt, []).append(v)
     other = t["else"]
-    if isbool and len(vals) == 1:
-        a = bool_atom(e, not bool(vals[0][0]))
-    else:
-        a = (e, ("ne", tuple(v for v, _ in vals)))
-    out.setdefault(other, []).append(a)
-    # a successor reached by two different values carries no single fact
-    return {k: v for k, v in out.items() if len(v) == 1}
+    for tgt, vs in by_tgt.items():
+        if tgt == other:
+            continue
+        if isbool and len(vs) == 1:
+            out[tgt] = [bool_atom(e, bool(vs[0]))]
+        elif len(vs) == 1:
+            out[tgt] = [(e, ("eq", vs[0]))]
+        else:
+            out[tgt] = [(e, ("in", tuple(sorted(vs))))]
+    if other not in by_tgt:
+        if isbool and len(vals) == 1:
+            out[other] = [bool_atom(e, not bool(vals[0][0]))]
+        else:
+            out[other] = [(e, ("ne", tuple(v for v, _ in vals)))]
+    return out
 
 
 def path_conditions(fn, bb):
